@@ -228,10 +228,22 @@ def render_history(history: List[Dict[str, Any]], rng: random.Random, forms: Opt
             r = rng.random()
             if r < 0.35:
                 cols = w1 + w2 + w3
-                data = zlib.compress(png_up_encode(data, cols))
+                if rng.random() < 0.5:
+                    data = zlib.compress(png_up_encode(data, cols))
+                    d["DecodeParms"] = {"Predictor": 12, "Columns": cols}
+                    R.features.add("xrefstm_png_up")
+                else:
+                    # any PNG filter type per row (None, Sub, Up, Average, Paeth); /Predictor 10..15 all mean
+                    # "PNG, the row's own tag decides" (7.4.4.4)
+                    from vf.ref.filters import png_encode
+
+                    ftypes = [rng.randrange(5) for _ in range(len(data) // cols)]
+                    data = zlib.compress(png_encode(data, 1, cols, 8, ftypes))
+                    d["DecodeParms"] = {"Predictor": rng.choice([10, 11, 12, 13, 14, 15]), "Columns": cols}
+                    R.features.add("xrefstm_png_mixed")
+                    if 3 in ftypes:
+                        R.features.add("xrefstm_png_average")
                 d["Filter"] = Name("FlateDecode")
-                d["DecodeParms"] = {"Predictor": 12, "Columns": cols}
-                R.features.add("xrefstm_png_up")
             elif r < 0.75:
                 data = zlib.compress(data)
                 d["Filter"] = Name("FlateDecode")
